@@ -252,6 +252,7 @@ func PublishMetadataSnapshot(ctx context.Context, endpoints []string, snapshot m
 				_ = cli.Close()
 				return err
 			}
+			verifGate("operator.publish.beforeTxn", snapshotKey)
 			putCtx, cancel := context.WithTimeout(ctx, 5*time.Second)
 			txn := cli.Txn(putCtx)
 			if len(resp.Kvs) == 0 {
